@@ -203,6 +203,8 @@ type env struct {
 	model   map[string]*mrec
 	markers map[string]*markerInfo
 	nextMk  int
+	// actingStale: markers of older versions that the reader acting in the current step holds in its cache for the key
+	actingStale map[string]bool
 
 	w       *database.Interface
 	wAlways [4]*database.Interface
@@ -308,7 +310,7 @@ func (e *env) taint(who string, local, internal bool, stale map[string]bool, blo
 			return
 		}
 		if info.secret && !internal || info.crown && !local {
-			if stale[m] {
+			if stale[m] || e.actingStale[m] {
 				continue
 			}
 			e.failf("TAINT: %s received %s containing marker %s of record %q (secret=%v crownjewel=%v): %.300q",
@@ -567,10 +569,21 @@ func (e *env) noteDenied(kind string, m *mrec) {
 
 func (e *env) exec(op opSpec) {
 	k := keyPool[op.Key%nUserKeys]
+	e.actingStale = nil
 	switch {
 	case strings.HasPrefix(op.Kind, "w."):
 		e.execWriter(op, k)
 	case strings.HasPrefix(op.Kind, "r."):
+		// what an interface with a cache writes or deletes is the copy in its cache: an older version of the record that it
+		// read when it was allowed to. That copy - not marked, whatever happened to the stored record since - is what the
+		// subscribers of the database are told. The statement is about records that are marked; the exclusively-used
+		// cache is the documented reason why such a copy can be out of date.
+		if r := e.readers[op.Reader%len(e.readers)]; r.cached {
+			e.actingStale = map[string]bool{}
+			for mk := range r.stale(k) {
+				e.actingStale[mk] = true
+			}
+		}
 		e.execReader(op, k, e.readers[op.Reader%len(e.readers)])
 	case strings.HasPrefix(op.Kind, "api."):
 		e.execAPI(op, k, e.apis[op.API%len(e.apis)])
